@@ -1,10 +1,78 @@
 (* Property C14 — preload is behaviour-preserving; chosencases selects exactly the listed tags.
-   (work in progress) *)
+
+   Statements only; proofs in Proofs/PreloadProofs.v (on top of Proofs/ProviderProofs.v), model in
+   Model/Provider.v + Model/Preload.v.  [deliver k preload cfg es cancel fuel] is the http
+   provider of decoder kind k (uri, uripost, raw, jsonline stream, jsonline array) with the
+   chosencases filter placed where the code places it (streaming: runFullScan after Scan, with
+   the provider's own count of delivered ammo; preload: loadAmmo before the cyclic replay).
+   Quantified over every kind, file of n >= 1 entries, limit, passes, list of chosen tags
+   (empty = no filter, tags that do not occur, repetitions), fuel, cancellation point.
+   [c14_const n] = 2n + 4. *)
 From Coq Require Import List Arith Bool.
-From PV Require Import Model.Provider Model.Preload.
+From PV Require Import Model.Provider Model.Preload Proofs.ProviderProofs Proofs.PreloadProofs.
 Import ListNotations.
 
-Example C14_example :
-  let es := [ {| e_tag := 1; e_id := 0 |}; {| e_tag := 2; e_id := 1 |}; {| e_tag := 2; e_id := 2 |} ] in
-  ids (delivered (deliver DUri true {| limit := 2; passes := 0; chosen := [2] |} es None 100)) = [1; 2].
-Proof. reflexivity. Qed.
+(* With chosencases set exactly the entries whose tag is listed are delivered, in file order,
+   cyclically; limit counts delivered entries (the bound is min of the non-zero bounds among
+   limit and passes * number of chosen entries); the number of steps is linear in deliveries
+   (no rescanning without a delivery). A filter matching nothing delivers nothing and ends with
+   "no ammo", sink closed, within c14_const n * (n+1) steps. Holds for preload on and off. *)
+Theorem C14_filter : forall k preload es lim pas ch,
+  es <> [] ->
+  let n := length es in
+  let src := chosen_entries ch es in
+  let C := c14_const n in
+  let runp := deliver k preload (cfgc lim pas ch) es in
+  (forall e, In e src <-> In e es /\ (ch = [] \/ In (e_tag e) ch))
+  /\ (src <> [] ->
+      (forall b fuel, bound lim pas (length src) = Some b -> C * (b + n + 1) < fuel ->
+         delivered (runp None fuel) = cyc_prefix src b /\ out (runp None fuel) = Ok /\ closed (runp None fuel) = true)
+      /\ (forall cancel fuel,
+            delivered (runp cancel fuel) = cyc_prefix src (length (delivered (runp cancel fuel)))
+            /\ le_opt (length (delivered (runp cancel fuel))) (bound lim pas (length src))
+            /\ steps (runp cancel fuel) <= C * (length (delivered (runp cancel fuel)) + n + 1))
+      /\ (bound lim pas (length src) = None -> forall m, exists fuel,
+            m <= length (delivered (runp None fuel))))
+  /\ (src = [] -> forall cancel fuel, is_cancelled cancel 0 = false ->
+      delivered (runp cancel fuel) = [] /\ steps (runp cancel fuel) <= C * (n + 1)
+      /\ (C * (n + 1) < fuel -> out (runp cancel fuel) = Failed ENoAmmo /\ closed (runp cancel fuel) = true)).
+Proof. exact c14_filter. Qed.
+Print Assumptions C14_filter.
+
+(* Preload on = preload off: when the run ends by itself (a bound exists, or nothing matches)
+   the delivered sequences, Run's results and the sink states are equal; any two runs deliver
+   prefixes of one and the same sequence; cancelled at the same point they deliver the same
+   sequence and both return with the sink closed. *)
+Theorem C14_equiv : forall k es lim pas ch,
+  es <> [] ->
+  let n := length es in
+  let src := chosen_entries ch es in
+  let C := c14_const n in
+  let on := deliver k true (cfgc lim pas ch) es in
+  let off := deliver k false (cfgc lim pas ch) es in
+  (forall b f1 f2, ((src <> [] /\ bound lim pas (length src) = Some b) \/ (src = [] /\ b = n)) ->
+     C * (b + n + 1) < f1 -> C * (b + n + 1) < f2 ->
+     delivered (on None f1) = delivered (off None f2)
+     /\ out (on None f1) = out (off None f2) /\ closed (on None f1) = closed (off None f2))
+  /\ (forall c1 c2 f1 f2,
+        let a := delivered (on c1 f1) in let b := delivered (off c2 f2) in
+        a = firstn (length a) b \/ b = firstn (length b) a)
+  /\ (forall j f1 f2, src <> [] -> C * (j + n + 1) < f1 -> C * (j + n + 1) < f2 ->
+        delivered (on (Some j) f1) = delivered (off (Some j) f2)
+        /\ closed (on (Some j) f1) = true /\ closed (off (Some j) f2) = true
+        /\ clean_or_cancelled (out (on (Some j) f1)) /\ clean_or_cancelled (out (off (Some j) f2))).
+Proof. exact c14_equiv. Qed.
+Print Assumptions C14_equiv.
+
+(* Non-vacuity. DESIGN.md section 6 #21: /a y, /b x, /c x, chosen x, limit 2 delivers /b /c on
+   both paths (y = tag 1, x = tag 2); interleaved tags stay in file order whatever the order in
+   which they are listed; a filter matching nothing ends with "no ammo" on both paths. *)
+Example C14_examples :
+  let e t i := {| e_tag := t; e_id := i |} in
+  ids (delivered (deliver DUri false (cfgc 2 0 [2]) [e 1 0; e 2 1; e 2 2] None 200)) = [1; 2]
+  /\ ids (delivered (deliver DUri true (cfgc 2 0 [2]) [e 1 0; e 2 1; e 2 2] None 200)) = [1; 2]
+  /\ ids (delivered (deliver DJsonArr false (cfgc 0 1 [2; 1; 2]) [e 1 0; e 2 1; e 1 2; e 2 3; e 3 4] None 200)) = [0; 1; 2; 3]
+  /\ ids (delivered (deliver DJsonArr true (cfgc 0 1 [2; 1; 2]) [e 1 0; e 2 1; e 1 2; e 2 3; e 3 4] None 200)) = [0; 1; 2; 3]
+  /\ out (deliver DRaw false (cfgc 0 0 [9]) [e 1 0; e 2 1] None 200) = Failed ENoAmmo
+  /\ out (deliver DRaw true (cfgc 0 0 [9]) [e 1 0; e 2 1] None 200) = Failed ENoAmmo.
+Proof. repeat split; reflexivity. Qed.
